@@ -1,0 +1,25 @@
+//go:build verif
+
+package http
+
+import (
+	"net/http"
+
+	"github.com/jech/storrent/path"
+	"github.com/jech/storrent/tor"
+)
+
+// VerifMux returns a mux with the handlers that Serve registers.
+func VerifMux() *http.ServeMux {
+	mux := http.NewServeMux()
+	mux.HandleFunc("/{$}", rootHandler)
+	mux.HandleFunc("/{file}", torRootHandler)
+	mux.HandleFunc("/{hash}/{path...}", torHandler)
+	return mux
+}
+
+// VerifFileParms resolves a path within a torrent as the file handler does.
+func VerifFileParms(t *tor.Torrent, p path.Path) (offset int64, length int64, err error) {
+	offset, length, _, err = fileParms(t, p)
+	return
+}
